@@ -11,9 +11,12 @@ var Monitors = map[string]func(*Ctx){
 	"C08": C08,
 	"C09": C09,
 	"C10": C10,
+	"C11": C11,
+	"C12": C12,
 	"C13": C13,
 	"C14": C14,
 	"C15": C15,
 	"C16": C16,
 	"C17": C17,
+	"C19": C19,
 }
